@@ -2,7 +2,7 @@
 From ASModel Require Import Base Tokens Report Ast IR Expand SetMatch Values Nodes Sem Spec.
 Local Open Scope string_scope.
 Local Open Scope list_scope.
-From ASProofs Require Import SemP CorollariesP Examples.
+From ASProofs Require Import SemP CorollariesP Examples LikeP.
 
 (* exec is the meaning of the generated code (Sem.v), expand the expander (Expand.v),
    frontier/sat the documented meaning of the pattern (Spec.v).  `frontier ... = Some fr`
@@ -69,3 +69,15 @@ Example c01_leaves_refutable :
   frontier [] [] (PMap 0 SCall true [(ustr "k", PWild 1)]) (VMapV []) <> Some [] /\
   frontier [] [] (PRegex 0 "^a" SCall) (VStr "b") <> Some [].
 Proof. repeat split; vm_compute; discriminate. Qed.
+
+(* `=~` by the matcher's answer: the built-in Like impls (Model/Like.v: String / &str against &str / String / Regex) all answer
+   what the regex engine answers for the compiled pattern, statelessly, and a pattern that does not compile matches nothing *)
+Theorem c01_builtin_like_is_the_matchers_answer : forall (regex : Type) compile is_match s p (re : regex), compile p = Some re ->
+  Like.like_all regex compile is_match s p = repeat (is_match re s) 6.
+Proof. exact LikeP.like_is_the_matchers_answer. Qed.
+Print Assumptions c01_builtin_like_is_the_matchers_answer.
+
+Theorem c01_invalid_regex_matches_nothing : forall (regex : Type) compile is_match s p, compile p = None ->
+  Like.like_all regex compile is_match s p = repeat false 4.
+Proof. exact LikeP.like_invalid_pattern_matches_nothing. Qed.
+Print Assumptions c01_invalid_regex_matches_nothing.
